@@ -2,7 +2,7 @@
   Evaluation-level guards of the parser, generically (C06, audit S7 item 1(b)).  `LocParseG.loc g` is
   `LocParse.loc` (Gts/Model/LocText.lean) with one more component in its result: was `g` true on the
   ARGUMENT LIST of some `Join` the evaluation of the parser made?  `Gts/Spec/ParseK3.lean` is the instance
-  `g = Loc.joinK3` (the same copy; the identity is not stated as a theorem); the instance used by the theorem
+  `g = Loc.joinK3` (the same copy; the identity is `Gts.parseLocationK3_eq_G`, Gts/Lemmas/ParseK3Guard.lean); the instance used by the theorem
   "parser results are canonical" is `Loc.canonGuard` below (K3 shape, or two neighbouring `Complemented`
   parts after flattening).  The parser part is a copy of the model's clause by clause; that the copy and
   the model agree on location, rest and stack for EVERY `g` is a theorem (`LocParseG.loc_sim`, Gts/Lemmas/ParseSim.lean).  The flag is
